@@ -742,6 +742,7 @@ func runNode(c *Ctx) {
 func runNodeCase(c *Ctx, mode string, seed int64, k int) {
 	c.Rng = rand.New(rand.NewSource(seed*1000003 + int64(k)*7919 + 17))
 	caseTag = fmt.Sprintf(" mode=%s seed=%d case=%d", mode, seed, k)
+	curCase = k
 	defer func() { caseTag = "" }()
 	switch mode {
 	case "ledger":
@@ -761,6 +762,9 @@ func runNodeCase(c *Ctx, mode string, seed int64, k int) {
 
 // caseTag is appended to the reset line of generated cases (empty for literal replays).
 var caseTag string
+
+// curCase is the number of the generated case being run.
+var curCase int
 
 func genCaseTree(c *Ctx, mode string) {
 	rng := c.Rng
